@@ -290,6 +290,7 @@ fn seeds() -> Vec<(String, String)> {
 }
 
 const BUILTIN_SEEDS: &[&str] = &[
+    "(define vec (vector 1 2 3)) (vector-set! vec vec 0) (vector-ref vec vec) (vector-set! vec (list 'slot vec) 0) (make-vector vec vec) (list-tail vec vec)",
     "(define (fact n) (if (= n 0) 1 (* n (fact (- n 1))))) (fact 5) (define v (make-vector 3 0)) (vector-set! v 1 'a) (vector-ref v 1)",
     "(define-syntax swap! (syntax-rules () ((swap! a b) (let ((tmp a)) (set! a b) (set! b tmp))))) (define p 1) (define q 2) (swap! p q) (list p q)",
     "(define (count . xs) (if (null? xs) 0 (+ 1 (apply count (cdr xs))))) (count 1 2 3) (map (lambda (x) (* x x)) '(1 2 3)) (fold-left + 0 '(1 2 3)) (let* ((a 1) (b (+ a 1))) (cond ((> a b) 'gt) ((= a b) => not) (else (case b ((1 2) 'small) (else 'big)))))",
@@ -359,7 +360,7 @@ pub fn judge_forms(forms: Vec<String>, budget: Budget) -> Report {
         }
         rep.note = notes.join(" | ");
         if rep.note.len() > 600 {
-            rep.note.truncate(600);
+            crate::sut::truncate_chars(&mut rep.note, 600);
         }
         s.budget = None;
         sanity(&mut s, &mut rep, "the input");
@@ -416,7 +417,9 @@ pub fn run(ctx: &Ctx) {
          batches on one interpreter; (2) grammar-guided token soup (form templates with random holes over the full \
          vocabulary of keywords, builtins, boundary literals), 1-6 forms per case evaluated one by one on one fresh \
          interpreter; (3) token-level mutations of the repository's example programs, test sources and bundled .sld \
-         files; (4) random unicode/control characters; (5) files: invalid UTF-8, directory, empty, CRLF, as program and \
+         files; (3b) calls of builtins and user procedures with 0-4 arguments from a pool of values that are awkward to \
+         render in an error message (the vector being written, structures containing it, long texts of multi-byte characters \
+         at every byte alignment, procedures), directly, through apply and in tail position; (4) random unicode/control characters; (5) files: invalid UTF-8, directory, empty, CRLF, as program and \
          as library. Oracle: no panic (identified by call site), and afterwards (quote ok) evaluates to ok on the same \
          interpreter. Non-trivial = the input got past the lexer (a value, a non-lexical error or a panic). Fuel/depth/ \
          allocation budget outcomes are outside the claim and counted under outside_claim.",
@@ -483,6 +486,44 @@ pub fn run(ctx: &Ctx) {
         let forms = if per_form { top_forms(&toks) } else { vec![join_tokens(&toks)] };
         let mut rep = judge_forms(forms, Budget::FUZZ);
         rep.label("mutate");
+        rep
+    });
+
+    // (3b) calls whose error message has to render awkward values: the vector being written, self-containing
+    // structures, long texts of multi-byte characters at every alignment, procedures; wrong arity and wrong types
+    let n_err = ctx.tier.pick(6_000, 200_000);
+    ctx.random("error-rendering", n_err, 60, |ch| {
+        let pad = ch.below(12);
+        let unit = *ch.pick(&["κόσμε", "字字字", "é", "😀", "ab"]);
+        let reps = 4 + ch.below(40);
+        let long: String = format!("{}{}", "a".repeat(pad), unit.repeat(reps));
+        let prelude = vec![
+            "(define vec (vector 1 2 3))".to_string(),
+            "(define nested (list 'slot vec (vector vec)))".to_string(),
+            format!("(define ustr \"{}\")", long),
+            format!("(define usym '|{}|)", long),
+            "(define (two p q) p)".to_string(),
+            "(define (rest2 p q . r) r)".to_string(),
+            "(define lam0 (lambda () 0))".to_string(),
+        ];
+        let pool = ["vec", "nested", "ustr", "usym", "two", "rest2", "lam0", "car", "'()", "0", "-1", "1/2", "1.5", "#\\λ", "'sym", "(list ustr ustr)", "(vector ustr vec)"];
+        let mut forms = prelude;
+        for _ in 0..1 + ch.below(4) {
+            let f = match ch.below(4) {
+                0 => (*ch.pick(&["two", "rest2", "lam0", "vec", "ustr", "nested"])).to_string(),
+                _ => (*ch.pick(BUILTINS)).to_string(),
+            };
+            let k = ch.below(5);
+            let args: Vec<&str> = (0..k).map(|_| *ch.pick(&pool)).collect();
+            let call = format!("({} {})", f, args.join(" "));
+            forms.push(match ch.below(5) {
+                0 => format!("(apply {} (list {}))", f, args.join(" ")),
+                1 => format!("((lambda () {}))", call),
+                _ => call,
+            });
+        }
+        let mut rep = judge_forms(forms, Budget::FUZZ);
+        rep.label("error-rendering");
         rep
     });
 
